@@ -411,7 +411,7 @@ var c03HistPlan = map[string][]string{ // attribute (c03Muts name, @position str
 	"fn.name": {"agg-func"}, "fn.sysname": {"agg-func"}, "fn.file": {"agg-file"}, "fn.startline": {"fn-start", "fn-all"},
 	"line.function": {"line-fn"}, "line.line": {"agg-line"}, "line.column": {"agg-col", "agg-line"},
 	"map.build": {"map-all"}, "map.file-no-build": {"map-all"}, "map.offset": {"map-all"}, "map.size-page": {"map-all"},
-	"loc.addr": {"agg-addr"}, "loc.folded": {"loc-folded"}, "loc.fewer-lines": {"agg-inline"},
+	"loc.addr": {"agg-addr"}, "loc.below-start-twin": {"agg-addr"}, "loc.below-start-zero": {"agg-addr"}, "loc.folded": {"loc-folded"}, "loc.fewer-lines": {"agg-inline"},
 	"sample.label-value": {"lab-none"}, "sample.label-key": {"lab-none"}, "sample.num-value": {"lab-none"},
 	"sample.num-unit": {"lab-none"}, "sample.str-vs-num-F2": {"lab-none"},
 }
